@@ -8,6 +8,9 @@
 //            numbered by recording allocMemoryLeakNode / free_memory, so the trace shows WHICH
 //            designations an allocation consumed.  checkAllFailedAllocsWereDone runs as the body of
 //            a real test (TestTestingFixture) so that its failure text can be read.
+//  mode fc : both at once: the FailableMemoryAllocator stays installed as the current MALLOC allocator for the whole case
+//            and the C-level API (cpputest_malloc / strdup / strndup / calloc at "<unknown>":0, the countdown, set / unset
+//            out-of-memory) runs on top of it; every successful block is released at once.
 //  mode c  : the C-level countdown through cpputest_malloc / strdup / strndup / calloc, plus realloc / free
 //            (outside the countdown) and malloc_count after every call.
 //
@@ -109,22 +112,25 @@ void run_case(const vh::Case& c) {
     RecFailable* fa = new RecFailable();      // never destroyed: the process ends with the case
     g_fa = fa;
     std::string mode;
+    bool persist = false;       // mode fc
     std::vector<void*> cblocks;
     for (size_t i = 0; i < c.ops.size(); i++) {
         const vh::Words& w = c.ops[i];
-        if (w[0] == "mode" && w.size() == 2 && mode.empty() && (w[1] == "fa" || w[1] == "c")) {
+        const bool isfa = mode == "fa" || mode == "fc", isc = mode == "c" || mode == "fc";
+        if (w[0] == "mode" && w.size() == 2 && mode.empty() && (w[1] == "fa" || w[1] == "c" || w[1] == "fc")) {
             mode = w[1];
             vh::emit("> mode %s", mode.c_str());
+            if (mode == "fc") { persist = true; setCurrentMallocAllocator(fa); }
         }
         // ------------------------------------------------------------------ failable allocator
-        else if (mode == "fa" && w[0] == "failnum" && w.size() == 2) {
+        else if (isfa && w[0] == "failnum" && w.size() == 2) {
             int n = (int) vh::to_i64(w[1]);
             vh::emit("> failnum %d", n);
             unsigned long id = fa->next;
             fa->designating = true; fa->failAllocNumber(n); fa->designating = false;
             if (fa->next == id + 1) vh::emit("node %lu", id); else vh::emit("node ?");
         }
-        else if (mode == "fa" && w[0] == "failat" && w.size() == 4) {
+        else if (isfa && w[0] == "failat" && w.size() == 4) {
             int n = (int) vh::to_i64(w[1]);
             unsigned fi = (unsigned) vh::to_u64(w[2]) % NFILES;
             size_t line = fline(fi, (size_t) vh::to_u64(w[3]));
@@ -133,7 +139,7 @@ void run_case(const vh::Case& c) {
             fa->designating = true; fa->failNthAllocAt(n, FILES[fi], line); fa->designating = false;
             if (fa->next == id + 1) vh::emit("node %lu", id); else vh::emit("node ?");
         }
-        else if (mode == "fa" && w[0] == "alloc" && w.size() == 5) {
+        else if (isfa && w[0] == "alloc" && w.size() == 5) {
             size_t size = (size_t) vh::to_u64(w[1]);
             unsigned fi = (unsigned) vh::to_u64(w[2]) % NFILES;
             char fam = w[4][0];
@@ -162,7 +168,10 @@ void run_case(const vh::Case& c) {
             else {
                 // the allocator under test is the CURRENT allocator of all three families for the duration of
                 // this one allocation (nothing else may allocate in between: no std:: calls here)
-                setCurrentMallocAllocator(fa); setCurrentNewAllocator(fa); setCurrentNewArrayAllocator(fa);
+                // (in mode fc the malloc allocator is left alone: it is the failable allocator or, under simulated
+                // out-of-memory, the null allocator)
+                if (!persist) setCurrentMallocAllocator(fa);
+                setCurrentNewAllocator(fa); setCurrentNewArrayAllocator(fa);
                 try {
                     if (fam == 'm') {
                         void* p = cpputest_malloc_location(size, FILES[fi], line);
@@ -181,12 +190,13 @@ void run_case(const vh::Case& c) {
                     else if (fam == 'u') { g_sink = new (std::nothrow) char[size]; if (g_sink) { memset(g_sink, 'x', size); delete[] g_sink; } else res = "null"; }
                     else if (fam == 'W') { g_sink = viamacro::n_alloc(size); memset(g_sink, 'x', size); delete[] g_sink; }
                 } catch (std::bad_alloc&) { res = "throw"; }
-                setCurrentMallocAllocator(savedM); setCurrentNewAllocator(savedN); setCurrentNewArrayAllocator(savedA);
+                if (!persist) setCurrentMallocAllocator(savedM);
+                setCurrentNewAllocator(savedN); setCurrentNewArrayAllocator(savedA);
             }
             vh::emit("ret %s", res);
             if (fa->nfreed) vh::emit("%s", ids_line("fired", fa->freed, fa->nfreed).c_str());
         }
-        else if (mode == "fa" && w[0] == "check" && w.size() == 1) {
+        else if (isfa && w[0] == "check" && w.size() == 1) {
             vh::emit_op("check");
             std::string out; size_t failures;
             {
@@ -215,65 +225,81 @@ void run_case(const vh::Case& c) {
                 else if (failures == 1 && n != std::string::npos && e != std::string::npos && e > n)
                     vh::emit("check fail number %s", out.substr(n + strlen(N), e - n - strlen(N)).c_str());
                 else vh::emit("check fail text %lu %s", (unsigned long) failures, vh::hex(out).c_str());
+                // the exact message (from "Expected" to "never done"), with this source file's path made canonical
+                size_t x = out.find("Expected "), y = out.find(E);
+                if (failures == 1 && x != std::string::npos && y != std::string::npos && y > x) {
+                    std::string msg = out.substr(x, y + strlen(E) - x);
+                    size_t z = msg.find(F6);
+                    if (F6[0] && z != std::string::npos) msg.replace(z, strlen(F6), "<harness>");
+                    vh::emit("text %s", vh::hex(msg).c_str());
+                }
             }
         }
-        else if (mode == "fa" && w[0] == "clear" && w.size() == 1) {
+        else if (isfa && w[0] == "clear" && w.size() == 1) {
             vh::emit_op("clear");
             fa->nfreed = 0;
             fa->clearFailedAllocs();
             vh::emit("%s", ids_line("freed", fa->freed, fa->nfreed).c_str());
         }
         // ------------------------------------------------------------------ C level
-        else if (mode == "c" && w[0] == "cd" && w.size() == 2) {
+        else if (isc && w[0] == "cd" && w.size() == 2) {
             int n = (int) vh::to_i64(w[1]);
             vh::emit("> cd %d", n);
             cpputest_malloc_set_out_of_memory_countdown(n);
         }
-        else if (mode == "c" && w[0] == "oom" && w.size() == 1) { vh::emit_op("oom"); cpputest_malloc_set_out_of_memory(); }
-        else if (mode == "c" && w[0] == "notoom" && w.size() == 1) { vh::emit_op("notoom"); cpputest_malloc_set_not_out_of_memory(); }
-        else if (mode == "c" && w[0] == "creset" && w.size() == 1) {
+        else if (isc && w[0] == "oom" && w.size() == 1) { vh::emit_op("oom"); cpputest_malloc_set_out_of_memory(); }
+        else if (isc && w[0] == "notoom" && w.size() == 1) { vh::emit_op("notoom"); cpputest_malloc_set_not_out_of_memory(); }
+        else if (isc && w[0] == "creset" && w.size() == 1) {
             vh::emit_op("creset"); cpputest_malloc_count_reset(); vh::emit("count %d", cpputest_malloc_get_count());
         }
-        else if (mode == "c" && w[0] == "cmalloc" && w.size() == 2) {
+        else if (isc && w[0] == "cmalloc" && w.size() == 2) {
             size_t size = (size_t) vh::to_u64(w[1]);
             if (size == 0) size = 1;
             if (size > 4096) size = 4096;
             vh::emit("> cmalloc %lu", (unsigned long) size);
+            fa->nfreed = 0;
             void* p = cpputest_malloc(size);
-            if (p) { memset(p, 'x', size); cblocks.push_back(p); vh::emit("ret ok"); } else vh::emit("ret null");
+            if (p) { memset(p, 'x', size); vh::emit("ret ok"); if (persist) cpputest_free(p); else cblocks.push_back(p); } else vh::emit("ret null");
+            if (fa->nfreed) vh::emit("%s", ids_line("fired", fa->freed, fa->nfreed).c_str());
             vh::emit("count %d", cpputest_malloc_get_count());
         }
-        else if (mode == "c" && w[0] == "cstrdup" && w.size() == 2) {
+        else if (isc && w[0] == "cstrdup" && w.size() == 2) {
             std::string s = vh::unhex(w[1]);
             if (s.find('\0') != std::string::npos) { vh::emit("> skip"); continue; }
             vh::emit("> cstrdup %s", vh::hex(s).c_str());
+            fa->nfreed = 0;
             char* p = cpputest_strdup(s.c_str());
-            if (p) { cblocks.push_back(p); vh::emit("ret %s", vh::hex(p, strlen(p) + 1).c_str()); } else vh::emit("ret null");
+            if (p) { vh::emit("ret %s", vh::hex(p, strlen(p) + 1).c_str()); if (persist) cpputest_free(p); else cblocks.push_back(p); } else vh::emit("ret null");
+            if (fa->nfreed) vh::emit("%s", ids_line("fired", fa->freed, fa->nfreed).c_str());
             vh::emit("count %d", cpputest_malloc_get_count());
         }
-        else if (mode == "c" && w[0] == "cstrndup" && w.size() == 3) {
+        else if (isc && w[0] == "cstrndup" && w.size() == 3) {
             std::string s = vh::unhex(w[1]);
             size_t n = (size_t) vh::to_u64(w[2]);
             if (s.find('\0') != std::string::npos) { vh::emit("> skip"); continue; }
             vh::emit("> cstrndup %s %lu", vh::hex(s).c_str(), (unsigned long) n);
+            fa->nfreed = 0;
             char* p = cpputest_strndup(s.c_str(), n);
-            if (p) { cblocks.push_back(p); vh::emit("ret %s", vh::hex(p, strlen(p) + 1).c_str()); } else vh::emit("ret null");
+            if (p) { vh::emit("ret %s", vh::hex(p, strlen(p) + 1).c_str()); if (persist) cpputest_free(p); else cblocks.push_back(p); } else vh::emit("ret null");
+            if (fa->nfreed) vh::emit("%s", ids_line("fired", fa->freed, fa->nfreed).c_str());
             vh::emit("count %d", cpputest_malloc_get_count());
         }
-        else if (mode == "c" && w[0] == "ccalloc" && w.size() == 3) {
+        else if (isc && w[0] == "ccalloc" && w.size() == 3) {
             unsigned long long a = vh::to_u64(w[1]), b = vh::to_u64(w[2]);
             // only small products or overflowing ones (a huge valid request is not the subject here)
             unsigned __int128 prod = (unsigned __int128) a * b;
             if (prod <= (unsigned __int128) 0xffffffffffffffffULL && prod > 65536) { vh::emit("> skip"); continue; }
             vh::emit("> ccalloc %llu %llu", a, b);
+            fa->nfreed = 0;
             void* p = cpputest_calloc((size_t) a, (size_t) b);
             if (!p) vh::emit("ret null");
             else {
                 size_t n = (size_t) (a * b); bool zero = true;
                 for (size_t k = 0; k < n; k++) if (((unsigned char*) p)[k] != 0) zero = false;
-                cblocks.push_back(p);
                 if (zero) vh::emit("ret zeros %lu", (unsigned long) n); else vh::emit("ret dirty");
+                if (persist) cpputest_free(p); else cblocks.push_back(p);
             }
+            if (fa->nfreed) vh::emit("%s", ids_line("fired", fa->freed, fa->nfreed).c_str());
             vh::emit("count %d", cpputest_malloc_get_count());
         }
         else if (mode == "c" && (w[0] == "crealloc" || w[0] == "cfree") && w.size() == 3) {   // crealloc|cfree <block index> <size>
@@ -308,7 +334,7 @@ void run_case(const vh::Case& c) {
         else vh::emit("> skip");
     }
     // end-of-case cleanup, not part of the history
-    if (mode == "c") {
+    if (mode == "c" || mode == "fc") {
         cpputest_malloc_set_not_out_of_memory();
         for (size_t k = 0; k < cblocks.size(); k++) cpputest_free(cblocks[k]);
     }
